@@ -417,6 +417,9 @@ def copy_case(ctx, seed):
         if rng.random() < 0.4:
             d['handler'] = 'wrap'      # an envelope handler whose prepared form still references the live result
     prog['params'] = {'copy': True}
+    if (seed // 5) % 3 == 2:
+        prog['params']['copy_set_later'] = True       # the flag is switched on, on the registered settings object, after the registration
+        ctx.count('copy_cases_with_the_flag_switched_on_after_registration')
     variant = (seed // 3) % 4
     if (seed // 12) % 3 == 1:
         prog['base_params'] = {'copy': False, 'rate': 1.0}     # the class extends a configured base class that does NOT copy
